@@ -35,7 +35,7 @@ Init == /\ rpc = [i \in Runs |-> "idle"] /\ cmd = [i \in Runs |-> 1]
         /\ ctxCancelled = FALSE /\ canceling = FALSE /\ chClosed = FALSE /\ inflight = 0
         /\ panicked = FALSE /\ rerr = [i \in Runs |-> "none"] /\ ncompleted = [i \in Runs |-> 0]
         /\ cmdAfter = FALSE
-        /\ spc = IF UseSched THEN "loop" ELSE "off" /\ schedCancelled = FALSE
+        /\ spc = (IF UseSched THEN "loop" ELSE "off") /\ schedCancelled = FALSE
 
 AnyCancelReturned == \E j \in Cans : cpc[j] = "ret"
 LoopBlocked == LoopCan # 0 /\ cpc[LoopCan] \in {"c1", "wait"}
@@ -135,6 +135,7 @@ Fair == /\ \A i \in Runs : WF_vars(RunEntry(i)) /\ WF_vars(BeforeStart(i)) /\ WF
                            /\ WF_vars(CmdEnd(i)) /\ WF_vars(AfterStart(i)) /\ WF_vars(AfterEnd(i)) /\ WF_vars(RunDefer(i))
         /\ \A j \in Cans : WF_vars(CancelSet(j)) /\ WF_vars(CancelWait(j))
         /\ WF_vars(LoopExit) /\ WF_vars(SchedReturn)
+        /\ UseSched => \A i \in Runs : WF_vars(RunCall(i))     \* the loop launches every stage it may launch
 Spec == Init /\ [][Next]_vars /\ Fair
 
 ----------------------------------------------------------------------
